@@ -1088,6 +1088,14 @@ func (x *Ctx) aliasedViews(fns []string) {
 		}()
 		return d.byt(sv, tv, 0)
 	}
+	callS := func(d *fnDef, sv, tv string) (res string) {
+		defer func() {
+			if e := recover(); e != nil {
+				res = "PANIC"
+			}
+		}()
+		return d.str(sv, tv, 0)
+	}
 	for _, fn := range fns {
 		d := fnByName[fn]
 		if d == nil || d.kind != kSS {
@@ -1111,6 +1119,19 @@ func (x *Ctx) aliasedViews(fns []string) {
 						prs = append(prs, pr{buf, buf[a:b], "the second argument is a window of the first"},
 							pr{buf[a:b], buf, "the first argument is a window of the second"},
 							pr{buf[:a:L], append([]byte{}, buf[:b]...), "the first argument is a short view; the rest of the second lies in its spare capacity"})
+					}
+					// the string functions on substrings of ONE string versus on clones
+					if a <= b {
+						for _, sp := range [][2]string{{bs[:a], bs[:b]}, {bs[a:], bs[b:]}, {bs, bs[a:b]}, {bs[a:b], bs}} {
+							want := callS(d, strings.Clone(sp[0]), strings.Clone(sp[1]))
+							got := callS(d, sp[0], sp[1])
+							n++
+							if got != want && bad < 5 {
+								bad++
+								x.relFail("relation", fn, &Case{Fn: fn, S: []byte(sp[0]), T: []byte(sp[1])},
+									fmt.Sprintf("strcase.%s returns %s on clones of these strings but %s on substrings of one string %q", fn, want, got, bs))
+							}
+						}
 					}
 					for _, p := range prs {
 						sc, tc := append([]byte{}, p.s...), append([]byte{}, p.t...)
